@@ -421,20 +421,30 @@ pub struct BatchResult {
 /// run-index order, so the outcome is independent of the number of workers.
 pub fn run_batch<E: Engine>(engine: &E, opts: &BatchOpts) -> BatchResult {
     let label = engine.label();
-    let next = AtomicUsize::new(0);
-    let results: Mutex<Vec<(u64, Stats, Result<Vec<Violation>, String>)>> = Mutex::new(Vec::new());
     let t0 = Instant::now();
     let chunk = 16usize;
+    let mut stats = Stats::default();
+    let mut violations = Vec::new();
+    let mut other = 0;
+    let mut harness_errors = Vec::new();
+    // runs are executed in segments and each segment is folded before the next starts, so
+    // that the per-run records of a 30M-run batch never sit in memory together
+    const SEGMENT: u64 = 1 << 20;
+    let mut seg_start = 0u64;
+    while seg_start < opts.runs {
+    let seg_end = (seg_start + SEGMENT).min(opts.runs);
+    let next = AtomicUsize::new(seg_start as usize);
+    let results: Mutex<Vec<(u64, Stats, Result<Vec<Violation>, String>)>> = Mutex::new(Vec::new());
     std::thread::scope(|sc| {
         for _ in 0..opts.workers.max(1) {
             sc.spawn(|| {
                 let mut local = Vec::new();
                 loop {
                     let start = next.fetch_add(chunk, Ordering::Relaxed) as u64;
-                    if start >= opts.runs {
+                    if start >= seg_end {
                         break;
                     }
-                    let end = (start + chunk as u64).min(opts.runs);
+                    let end = (start + chunk as u64).min(seg_end);
                     for i in start..end {
                         let mut rng = Rng::new(run_seed(opts.seed, &label, i));
                         let mut stats = Stats::default();
@@ -460,10 +470,6 @@ pub fn run_batch<E: Engine>(engine: &E, opts: &BatchOpts) -> BatchResult {
     });
     let mut all = results.into_inner().unwrap();
     all.sort_by_key(|x| x.0);
-    let mut stats = Stats::default();
-    let mut violations = Vec::new();
-    let mut other = 0;
-    let mut harness_errors = Vec::new();
     for (i, s, r) in all {
         stats.merge(s, opts.max_samples);
         match r {
@@ -479,6 +485,8 @@ pub fn run_batch<E: Engine>(engine: &E, opts: &BatchOpts) -> BatchResult {
             }
             Err(e) => harness_errors.push(e),
         }
+    }
+    seg_start = seg_end;
     }
     BatchResult {
         label,
